@@ -75,6 +75,15 @@ def run(report: Report, tier, seed):
     if abad:
         b = abad[0]
         fails = [{"input": {"abisub": [b["seed"], b["version"], b["opts"]]}, "mismatches": [{"what": b["problems"][0]}], "teal": b.get("teal")}] + fails
+    from vf.core import use_repo
+    use_repo()
+    from . import graph_native
+    gc, gf = graph_native.check(tier, seed)
+    report.bounded.append(Bounded(function="pyteal.compiler.subroutines.findRecursionPoints", contract="callee is a re-entry point of caller iff the caller is reachable from the callee",
+                                  bound="all call graphs with <= 3 routines x every key order (exhaustive) + sampled 4-routine graphs", cases=gc, distinct_nontrivial=gc, failures=len(gf)))
+    if gf:
+        report.violation(Violation(key=f"recursion-points:{gf[0]['edges']}:{gf[0]['order']}", what=f"findRecursionPoints: {gf[0]['what']} on call graph edges {gf[0]['edges']} (key order {gf[0]['order']})",
+                                   replay={"input": {"graph": gf[0]}}, confirmed_native=True))
     report.sample({"obligation": "O2.4/callsite/stack-after-restore",
                    "meaning": "after `before; callsub f; after` the stack is base ++ result(f) for symbolic numArgs, len(slots), version"})
 
